@@ -33,8 +33,11 @@ class Doc:
         self.abstract = None
         self.meta = {}
 
-    def finish(self, out):
+    def finish(self, out, rnd=None):
         self.text = out.text()
+        if rnd is not None and rnd.random() < 0.12:
+            # no newline at the end of the file (the last line ends with the document)
+            self.text = self.text.rstrip('\r\n')
         b = self.text.encode('utf-8')
         for d in self.declared:
             if d.get('start') is not None:
@@ -361,7 +364,7 @@ def gen_cargo_toml(rnd):
         out.w('[features]' + nl + 'default' + eq + '[]' + nl + 'serde' + eq + '["dep:serde"]' + nl)
     if rnd.random() < 0.2:
         out.w('[[bin]]' + nl + 'name' + eq + '"x"' + nl)
-    return doc.finish(out)
+    return doc.finish(out, rnd)
 
 
 PY_NAMES = ['requests', 'Django', 'typing_extensions', 'numpy', 'zope.interface', 'a-b', 'Flask']
@@ -474,7 +477,7 @@ def gen_pyproject(rnd):
         else:
             out.w('[tool.black]' + nl + 'line-length' + eq + '88' + nl + 'dependencies' + eq + '["notadep>=1"]' + nl)
         out.w(nl)
-    return doc.finish(out)
+    return doc.finish(out, rnd)
 
 
 def yaml_scalar(rnd, s, force_plain=False):
@@ -540,7 +543,7 @@ def gen_pnpm(rnd):
             out.w('onlyBuiltDependencies:' + nl + ind + '- esbuild' + nl)
         if rnd.random() < 0.3:
             out.w(nl)
-    return doc.finish(out)
+    return doc.finish(out, rnd)
 
 
 ACTIONS = ['actions/checkout', 'actions/setup-node', 'docker/build-push-action', 'owner/repo', 'aws-actions/configure-aws-credentials']
@@ -628,7 +631,7 @@ def gen_workflow(rnd):
                 out.w(nl)
             if rnd.random() < 0.3:
                 out.w(cont + 'with:' + nl + cont + ind + 'node-version: 20' + nl)
-    return doc.finish(out)
+    return doc.finish(out, rnd)
 
 
 GO_MODS = ['golang.org/x/text', 'github.com/stretchr/testify', 'github.com/Azure/azure-sdk-for-go', 'gopkg.in/yaml.v3', 'github.com/a/b/v2', 'example.com/m']
